@@ -72,3 +72,17 @@ def check_paths(res, fn, spec, base_pc=(), replay=None, key=None, twin=None, max
   if twin is not None and not twin_done:
     pass   # no value-returning path at all: nothing to witness
   return npaths
+
+
+def prove_from_defaults(full_pc, goal, stale_vars, timeout_ms=60000):
+  """RTL steps start from an arbitrary state, including arbitrary *stale wire values* (a correct design
+  recomputes every wire, so they cannot matter).  If the goal fails, look for a counterexample whose
+  stale wires hold their power-on default 0 -- a state a concrete replay can plant by setting registers
+  only.  Returns (verdict, model, stale_only): stale_only=True means the goal fails only for non-default
+  stale wire values (some wire is not recomputed; not reachable from reset defaults)."""
+  v, m = prove(full_pc, goal, timeout_ms)
+  if v != 'sat': return v, m, False
+  v2, m2 = prove(list(full_pc) + [x == 0 for x in stale_vars], goal, timeout_ms)
+  if v2 == 'sat': return 'sat', m2, False
+  if v2 == 'unsat': return 'sat', m, True
+  return 'unknown', m2, False
